@@ -43,6 +43,11 @@ def _rowfunc(row):
     row['s'] = row['s'] + '!'
 
 
+@core.fn('c10_bang')
+def _bang(v):
+    return v + '!' if isinstance(v, str) else v
+
+
 def _k(sel, **kw):
     if sel != '$omit':
         kw['resources'] = sel
@@ -56,6 +61,8 @@ PROCS = {
     'printer': lambda sel: S('printer', **_k(sel, header_print={'$fn': 'c10_log', 'env': True, 'args': ['H']},
                                              table_print={'$fn': 'c10_log', 'env': True, 'args': ['T']})),
     'set_type': lambda sel: S('set_type', 's', **_k(sel, type='integer')),
+    # leaves the type alone and rewrites the cells: what it did is visible in the rows even where the schema agrees
+    'set_type_transform': lambda sel: S('set_type', 's', **_k(sel, type='string', transform={'$fn': 'c10_bang'})),
     'sort_rows': lambda sel: S('sort_rows', '{id}', **_k(sel)),
     'filter_rows': lambda sel: S('filter_rows', **_k(sel, equals=[{'k': 1}])),
     'unpivot': lambda sel: S('unpivot', [{'name': 's', 'keys': {'key': 's'}}], [{'name': 'key', 'type': 'string'}],
@@ -312,7 +319,7 @@ def check_one(proc, selkind, sel, names):
     return [], 'ok:%d' % len(want), nontrivial
 
 
-REUSE_PROCS = ['sort_rows', 'filter_rows', 'set_type', 'delete_fields', 'update_resource', 'set_primary_key', 'find_replace',
+REUSE_PROCS = ['sort_rows', 'filter_rows', 'set_type', 'set_type_transform', 'delete_fields', 'update_resource', 'set_primary_key', 'find_replace',
                'printer', 'deduplicate', 'delete_resource', 'unpivot', 'add_field', 'rename_fields', 'select_fields',
                'update_schema', 'validate']
 
